@@ -573,6 +573,14 @@ impl Worterbuch {
         live_only: bool,
     ) -> WorterbuchResult<(Receiver<PStateEvent>, SubscriptionId)> {
         let path: Vec<KeySegment> = KeySegment::parse(&pattern);
+        // The receiver of this subscription is not being read yet: the bookkeeping below must not
+        // produce events for it, or this task waits for itself once the channel is full. That
+        // goes for every pattern that can match keys below $SYS, not just the literal ones.
+        let matches_system_keys = matches!(
+            path.first(),
+            Some(KeySegment::Wildcard | KeySegment::MultiWildcard)
+        ) || pattern == SYSTEM_TOPIC_ROOT
+            || pattern.starts_with(SYSTEM_TOPIC_ROOT_PREFIX);
         let (tx, rx) = channel(self.config.channel_buffer_size);
         let subscription = SubscriptionId::new(client_id, transaction_id);
         let subscriber = Subscriber::new(
@@ -599,9 +607,7 @@ impl Worterbuch {
         debug!("Total subscriptions: {}", self.subscriptions.len());
 
         if self.config.extended_monitoring
-            && pattern != "#"
-            && pattern != SYSTEM_TOPIC_ROOT
-            && !pattern.starts_with(SYSTEM_TOPIC_ROOT_PREFIX)
+            && !matches_system_keys
             && client_id != INTERNAL_CLIENT_ID
         {
             if let Err(e) = self
@@ -767,6 +773,7 @@ impl Worterbuch {
             }
             if self.config.extended_monitoring
                 && path[0] != KeySegment::MultiWildcard
+                && path[0] != KeySegment::Wildcard
                 && path[0].deref() != SYSTEM_TOPIC_ROOT
                 && client_id != INTERNAL_CLIENT_ID
             {
